@@ -1,7 +1,7 @@
 CONSTANTS
   Cap = 128
   Alphabet = {34, 91, 93, 97, 194, 128, 224, 160, 237, 240, 144, 31, 13}
-  MaxLen = 5
+  MaxLen = 4
 SPECIFICATION Spec
 INVARIANT Inv
 CHECK_DEADLOCK FALSE
